@@ -149,6 +149,28 @@ CLAIMED = {
         design_ref="DESIGN.md §5 C14",
         note="Genuine deviations at extreme uniforms (D14) are listed in known_findings.json by (class, regime, outcome, triggering uniform); support membership is classified by the projection.",
     ),
+    "C07": dict(
+        technique="trace validation (TLC) of runs recorded in several interpreter processes against one DEVS/SimStats/PubSub specification with shared program and statistics memo",
+        category="model_checking",
+        text="Reproducibility is determinism of the closed specification: hash seed, object identity, event counters, speed and pause positions are "
+             "not variables of DEVS.tla. Child interpreters (PYTHONHASHSEED 0/1/12345/random, unrelated prior activity, pilot replications, "
+             "different step and pause plans) run one stochastic model with pub/sub fan-out; their traces are concatenated and TLC requires that "
+             "what handler k requested (in listener order) is one function of k, that every replication executes the reference sequence, that "
+             "every complete replication has the same statistics digest, and (TracePubSub.tla) that every fan-out is delivered in subscription order.",
+        design_ref="DESIGN.md §5 C07",
+        note="TLC does not start interpreters: the harness does. Delays are on the k/4 grid; raw draws are compared through the statistics digest.",
+    ),
+    "C11": dict(
+        technique="TLA+ model checking (TLC) of SimStats.tla (DEVS.tla + Stats.tla exact getters) + two-way conformance with a statistics-creating model",
+        category="model_checking",
+        text="What SimCounter/SimTally/SimWeightedTally/SimPersistent must report is derived in TLA+ from the executed sequence (handler events after "
+             "the warm-up event; persistent closed at the replication end) with exact rational getters; exhaustive small configuration, simulated "
+             "behaviours replayed on real simulators comparing every getter at every quiescent point, the registry and 'published payload == getter at "
+             "that moment'; random schedules (ties at the warm-up instant, pauses, bounded runs, re-initialisation) recorded and validated by "
+             "TraceDEVS.tla, which also prints the exact expectation for the recorded final observation.",
+        design_ref="DESIGN.md §5 C11",
+        note="Observation values are fixed functions of the event rank (small integers, at most 6 per replication when exact values are requested: TLC integers are 32 bit).",
+    ),
 }
 
 NOT_APPLICABLE = {
